@@ -92,7 +92,7 @@ func cmdFunc(args []string) {
 		}
 		for _, r := range verifyAllModes(prog, fi, fc) {
 			if r.Err != "" {
-				fmt.Println("ERROR", r.Func, r.Mode, r.Err)
+				fmt.Println("ERROR", r.Func, r.Mode, firstLines(r.Err, 12))
 				bad++
 			}
 			dischargeAll(r.Obligations, *timeout, 0, true)
@@ -112,7 +112,11 @@ func cmdFunc(args []string) {
 				if *verbose || o.Result != "unsat" {
 					fmt.Printf("%s %-8s %-10s %5dms %s  tags=%v  %s:%d\n", mark, o.Result, o.Solver, o.Ms, o.Name, o.Tags, filepath.Base(o.Pos.Filename), o.Pos.Line)
 					if o.Result != "unsat" {
-						fmt.Printf("       solvers: %v\n", o.Outputs)
+						so := fmt.Sprintf("%v", o.Outputs)
+						if len(so) > 300 {
+							so = so[:300] + "…"
+						}
+						fmt.Printf("       solvers: %s\n", so)
 					}
 				}
 				if *dump != "" {
